@@ -20,8 +20,7 @@ func (n nopFilter) Matchers() []*labels.Matcher { return nil }
 func (n nopFilter) Matches(storage.Series) bool { return true }
 
 type filter struct {
-	matchers   []*labels.Matcher
-	matcherSet map[string]*labels.Matcher
+	matchers []*labels.Matcher
 }
 
 func NewFilter(matchers []*labels.Matcher) Filter {
@@ -29,29 +28,19 @@ func NewFilter(matchers []*labels.Matcher) Filter {
 		return &nopFilter{}
 	}
 
-	matcherSet := make(map[string]*labels.Matcher)
-	for _, m := range matchers {
-		matcherSet[m.Name] = m
-	}
 	return &filter{
-		matchers:   matchers,
-		matcherSet: matcherSet,
+		matchers: matchers,
 	}
 }
 
 func (f filter) Matchers() []*labels.Matcher { return f.matchers }
 
+// Matches applies every matcher to the series like a storage select does:
+// a label the series does not have is matched as the empty value.
 func (f filter) Matches(series storage.Series) bool {
-	if len(f.matcherSet) == 0 {
-		return true
-	}
-
-	for _, l := range series.Labels() {
-		m, ok := f.matcherSet[l.Name]
-		if !ok {
-			continue
-		}
-		if !m.Matches(l.Value) {
+	lbls := series.Labels()
+	for _, m := range f.matchers {
+		if !m.Matches(lbls.Get(m.Name)) {
 			return false
 		}
 	}
